@@ -451,4 +451,59 @@ def recvDepend (chan : Str) : Option (Str × Str × Str) :=
       else none
     | [] => none
 
+/-! ## Python objects: the caller's mapping and what a hand-over does to it
+
+`_generate_env_str(self, env_dict)` receives a *reference* to the caller's dict, and `ebd.py` builds `self.env` once and
+hands that same object to `run_phase` for every phase of a build (`_run_depend_like_phase` passes the caller's dict
+through `expected_ebuild_env` as well).  What a hand-over does to the object is therefore part of what the *next*
+hand-over sends.  Objects live in a heap (address = position); `dict(x)` allocates a copy, `.pop` changes the object
+it is called on. -/
+
+abbrev Env := List (Str × Val)
+abbrev Heap := List Env
+
+/-- the object at address `a` -/
+def Heap.get (h : Heap) (a : Nat) : Env := (h[a]?).getD []
+
+/-- `dict(e)`: a new object with the same entries; its address -/
+def Heap.alloc (h : Heap) (e : Env) : Heap × Nat := (h ++ [e], h.length)
+
+/-- `d.pop("PKGCORE_NONEXPORTED_VARS", …)` on the object at `a`: the value found (if any) and the heap in which that
+object no longer has the entry -/
+def Heap.popMarker (h : Heap) (a : Nat) : Option Val × Heap :=
+  ((h.get a).lookup marker, h.set a ((h.get a).filter fun kv => kv.1 != marker))
+
+/-- `frozenset(<popped value or "">.split())` -/
+def nonexportedOfVal : Option Val → Except Err (List Str)
+  | none => .ok []
+  | some (.scalar v) => .ok (splitWs v)
+  | some (.array _) => .error .attr
+
+/-- `_generate_env_str` after the pop: `nonexported` from the popped value, the lines from the entries that are left -/
+def genEnvStrBody (ro : List Str) (mv : Option Val) (rest : Env) : Except Err Str :=
+  match nonexportedOfVal mv with
+  | .error e => .error e
+  | .ok nonexp =>
+    let its := (sortEnv rest).filter fun kv => !ro.contains kv.1
+    if its.all fun kv => keyOk kv.1 then
+      let plain := (its.filter fun kv => nonexp.contains kv.1).map fun kv => assignStr kv.1 kv.2
+      let exported := (its.filter fun kv => !nonexp.contains kv.1).map fun kv => assignStr kv.1 kv.2
+      let lines := (if plain.isEmpty then [] else [joinSep [' '] plain]) ++
+        (if exported.isEmpty then [] else ["export ".toList ++ joinSep [' '] exported])
+      .ok (joinSep ['\n'] lines)
+    else .error .key
+
+/-- `_generate_env_str(env_dict)` called with a reference to the object at `a`: the text (or exception) and the heap
+afterwards.  `copy` = whether the method starts with `env_dict = dict(env_dict)` (it does; `false` is kept to state what
+that line is for). -/
+def genEnvStrCall (copy : Bool) (ro : List Str) (h : Heap) (a : Nat) : Except Err Str × Heap :=
+  let hw := if copy then h.alloc (h.get a) else (h, a)
+  let ph := hw.1.popMarker hw.2
+  (genEnvStrBody ro ph.1 (ph.2.get hw.2), ph.2)
+
+/-- a build: the same object handed over `n` times (once per phase); the texts sent -/
+def handovers (copy : Bool) (ro : List Str) : Nat → Heap → Nat → List (Except Err Str)
+  | 0, _, _ => []
+  | n + 1, h, a => (genEnvStrCall copy ro h a).1 :: handovers copy ro n (genEnvStrCall copy ro h a).2 a
+
 end Pkgcore.C31
